@@ -748,7 +748,7 @@ class Terms:
         if k == "deref":
             return t
         if k == "field":
-            return field_of(t, pe["adt"], pe["name"])
+            return field_of(t, canon(pe["adt"]), pe["name"])
         if k == "downcast":
             return variant_of(t, pe["name"])
         if k == "index":
@@ -812,7 +812,7 @@ class Terms:
             ak = rv["akind"]
             ops = tuple(self.operand(o, st) for o in rv["ops"])
             if ak == "adt":
-                return ("agg", rv["adt"], rv["variant"], tuple(zip(rv["fields"], ops)))
+                return ("agg", canon(rv["adt"]), rv["variant"], tuple(zip(rv["fields"], ops)))
             if ak == "tuple":
                 return ("tuple", ops)
             if ak == "array":
